@@ -42,6 +42,15 @@ def classify(s):
     return None
 
 
+def literal_ops(lit):
+    w = "seedb:%s:%s" % (hx(bytes(range(16, 48))), "01"[lit % 2])
+    if lit < 2 ** 31:
+        yield "generate %s %d 0 1" % (w, lit)
+
+
+LITERAL_BUDGET = 16
+
+
 def cases(rng, tier):
     n = 8 if tier == "quick" else 300
     for w in wspecs(rng, n):
